@@ -5,7 +5,6 @@ Lengths reach the implementation as int (scale 1) or as the float len/scale
 (scale a power of two, so every sum is exact); they are observed back as
 integers (len*scale)."""
 import copy
-import inspect
 import json
 
 from vcheck.implutil import serve
@@ -29,7 +28,7 @@ def canon_len(l, scale):
     r = round(x)
     if abs(x - r) < 1e-9:
         return int(r)
-    return ["f", repr(float(x))]
+    return round(float(x), 9)
 
 
 def dump(node, scale):
@@ -51,19 +50,41 @@ def dists(tree, scale):
 
 
 def source_variants():
-    """which variant of the code the model has to follow (fail-closed text probes)"""
-    from cogent3.core.tree import PhyloNode, TreeNode
+    """which variant of unrooted() the model has to follow, decided by behaviour on one witness; the correspondence
+    check on all cases then tests that choice (a wrong or unknown variant shows up as disagreements)"""
+    spec = ["root", None, [["x", 3, [["a", 1, []], ["b", 2, []]]], ["y", 6, [["c", 4, []], ["d", 5, []]]]]]
+    try:
+        r = dump(build(spec, 1).unrooted(), 1)
+    except Exception as e:  # noqa: BLE001
+        return {"unrooted": "unknown", "why": f"{type(e).__name__}: {e}"}
+    v0 = ["root", None, [["a", 4, []], ["b", 5, []], ["y", 6, [["c", 4, []], ["d", 5, []]]]]]
+    fixed = ["root", None, [["a", 1, []], ["b", 2, []], ["y", 9, [["c", 4, []], ["d", 5, []]]]]]
+    out = {"unrooted": "v0" if r == v0 else "fixed" if r == fixed else "unknown", "witness_result": r}
+    # root_at_midpoint: does it edit its receiver when the midpoint is inside an edge?
+    try:
+        t = build(spec, 1)
+        before = dump(t, 1)
+        t.root_at_midpoint()
+        out["midpoint"] = "v0" if dump(t, 1) != before else "fixed"
+    except Exception as e:  # noqa: BLE001
+        out["midpoint"] = "unknown"
+        out["why_midpoint"] = f"{type(e).__name__}: {e}"
+    # JSON writer: are names written escaped?  newick parser: are labels told apart from punctuation?
+    try:
+        from cogent3.util.deserialise import deserialise_object
+        import cogent3
 
-    src = inspect.getsource(TreeNode.unrooted)
-    norm = "".join(src.split())
-    if "sib.length+=oldnode.length" in norm:
-        unrooted = "v0"
-    elif "C09-fix:collapsed-edge-to-sibling" in norm:
-        unrooted = "fixed"
-    else:
-        unrooted = "unknown"
-    msrc = "".join(inspect.getsource(PhyloNode.root_at_midpoint).split())
-    return {"unrooted": unrooted, "midpoint_copies": "self.deepcopy()" in msrc or "self.copy()" in msrc}
+        t = build(["root", None, [["a,b", 1, []], ["c d", 2, []], ["e", 3, []]]], 1)
+        r = dump(deserialise_object(t.to_json()), 1)
+        out["json"] = "fixed" if r == ["root", None, [["a,b", 1, []], ["c d", 2, []], ["e", 3, []]]] else "v0"
+    except Exception:  # noqa: BLE001
+        out["json"] = "v0"
+    try:
+        r = cogent3.make_tree("(',',b);")
+        out["labels"] = "fixed" if r.get_tip_names() == [",", "b"] else "v0"
+    except Exception:  # noqa: BLE001
+        out["labels"] = "v0"
+    return out
 
 
 def apply_op(tree, op, scale):
@@ -126,39 +147,52 @@ def run_case(case):
         return source_variants()
     scale = case.get("scale", 1)
     tree = build(case["tree"], scale)
-    before = dump(tree, scale)
-    nwk_before = tree.get_newick(with_distances=True, with_node_names=True)
+    # every distinct tree object seen so far: [object, dump, index of the step that produced it (-1 = the input)]
+    seen = [[tree, dump(tree, scale), -1]]
     cur = tree
-    inplace_on_orig = False
-    kind, r = "tree", tree
-    out = {}
+    steps = []
     for k, op in enumerate(case["ops"]):
-        if op["op"] == "prune" and cur is tree:
-            inplace_on_orig = True
+        st = {"op": op["op"]}
+        recv = cur
+        nwk_before = recv.get_newick(with_distances=True, with_node_names=True)
         try:
             kind, r = apply_op(cur, op, scale)
         except Exception as e:  # noqa: BLE001
-            after = dump(tree, scale)
-            return {"res": {"exc": exc_code(e)}, "msg": f"{type(e).__name__}: {str(e)[:120]}", "at": k,
-                    "mut": before != after, "inplace_on_orig": inplace_on_orig}
-        if kind == "tree":
+            kind, r = "exc", None
+            st["res"] = {"exc": exc_code(e)}
+            st["msg"] = f"{type(e).__name__}: {str(e)[:120]}"
+        # who changed during this step
+        changed = []
+        for ent in seen:
+            now = dump(ent[0], scale)
+            if now != ent[1] or (ent[0] is recv and nwk_before != recv.get_newick(with_distances=True, with_node_names=True)):
+                if ent[0] is recv:
+                    st["mut_recv"] = True
+                else:
+                    changed.append(ent[2])
+                ent[1] = now
+        st.setdefault("mut_recv", False)
+        if st["mut_recv"]:
+            st["recv_after"] = dump(recv, scale)
+        st["others_changed"] = changed
+        if kind == "text":
+            st["text"] = r
+        elif kind == "val":
+            st["val"] = r
+        elif kind == "tree":
+            st["res"] = dump(r, scale)
+            try:
+                st["dists"] = dists(r, scale)
+            except Exception as e:  # noqa: BLE001
+                st["dists"] = {"exc": exc_code(e)}
+            st["tips"] = r.get_tip_names()
+            if not any(ent[0] is r for ent in seen):
+                seen.append([r, st["res"], k])
             cur = r
-    after = dump(tree, scale)
-    mut = before != after or nwk_before != tree.get_newick(with_distances=True, with_node_names=True)
-    out = {"mut": mut, "inplace_on_orig": inplace_on_orig}
-    if kind == "text":
-        out["text"] = r
-        return out
-    if kind == "val":
-        out["val"] = r
-        return out
-    out["res"] = dump(r, scale)
-    try:
-        out["dists"] = dists(r, scale)
-    except Exception as e:  # noqa: BLE001
-        out["dists"] = {"exc": exc_code(e)}
-    out["tips"] = r.get_tip_names()
-    return out
+        steps.append(st)
+        if kind == "exc":
+            break
+    return {"steps": steps}
 
 
 if __name__ == "__main__":
